@@ -306,6 +306,38 @@ def run(rep):
     rep.unit(f"{file}: {len(CATALOGUE)} transform classes x {len(METHODS)} methods")
     npn = numpy_names(rep)
     npairs = 0
+    # parameter / constant vectors are per-instance state: a module-level Vector handed to the base constructor is one object shared by
+    # every instance, so configuring one transform silently reconfigures the others (forward on A, set B, backward on A is no inverse)
+    modvecs = {}
+    for st in mod.tree.body:
+        if isinstance(st, ast.Assign) and len(st.targets) == 1 and isinstance(st.targets[0], ast.Name) and isinstance(st.value, ast.Call) and \
+                dotted(st.value.func) in ("Vector", "containers.Vector"):
+            modvecs[st.targets[0].id] = st.lineno
+    base_init = classes["Transform"].methods.get("__init__") if "Transform" in classes else None
+    kept_as_given = set()
+    if base_init is not None:
+        for a_ in ast.walk(base_init):
+            if isinstance(a_, ast.Assign) and len(a_.targets) == 1 and dotted(a_.targets[0]) in ("self._params", "self._constants", "self.params", "self.constants") and \
+                    isinstance(a_.value, ast.Name) and a_.value.id in ("params", "constants"):
+                kept_as_given.add(a_.value.id)
+    for name in CATALOGUE:
+        tc = classes[name]
+        for slot in ("params", "constants"):
+            if slot not in kept_as_given:
+                continue                 # the base constructor copies what it is given: sharing the argument is harmless
+            decl = getattr(tc, slot)
+            node = getattr(decl, "node", None)
+            src = node
+            if isinstance(node, ast.Name):
+                init = tc.methods.get("__init__")
+                local = [a_ for a_ in ast.walk(init) if isinstance(a_, ast.Assign) and len(a_.targets) == 1 and isinstance(a_.targets[0], ast.Name) and a_.targets[0].id == node.id] if init else []
+                src = local[-1].value if local else node
+            if isinstance(src, ast.Name) and src.id in modvecs:
+                rep.violation("R01.d", file, f"{name}.__init__", f"{name}: `{slot}` vector is created per instance",
+                              f"the module-level vector `{src.id}` (line {modvecs[src.id]}) is handed to the base constructor uncopied: all instances of the classes using it share "
+                              "one object, and setting it on one transform changes the formulas of the others", line=tc.cdef.lineno, firm=True)
+            elif decl.known:
+                rep.proved("R01.d", file, f"{name}.__init__", f"{name}: `{slot}` vector is created per instance", line=tc.cdef.lineno)
     for name in CATALOGUE:
         tc = classes[name]
         line = tc.cdef.lineno
